@@ -579,6 +579,68 @@ fn main() {
         flush(&mut rep);
         finish(&cli, rep, t0);
     }
+    // "miri32": a 32-BIT build of dasp executed by the interpreter (usize 32 bits wide),
+    // interpreter-sized: iterator-backed signals of 0..=4 frames, every single adaptor over leaves
+    // of every length 0..=6 thinned to the shard, a few random trees
+    if cli.stage == "miri32" {
+        rep.note(format!("usize::BITS = {} in this stage", usize::BITS));
+        if usize::BITS == 32 {
+            rep.hit("ran_with_32_bit_usize");
+        }
+        rep.oblige("ran_with_32_bit_usize", 1);
+        rep.oblige("trees_run_as_a_32_bit_build", 1);
+        let mut item = 0u64;
+        let mut mine = || {
+            item += 1;
+            item % cli.nshards == cli.shard
+        };
+        for len in 0..=4usize {
+            for revive in [false, true] {
+                if mine() {
+                    check_from_iter(&mut rep, len, revive, 3);
+                    check_from_samples::<1>(&mut rep, len, revive, 3);
+                    check_from_samples::<3>(&mut rep, len, revive, 3);
+                }
+            }
+            if mine() {
+                check_lift(&mut rep, len);
+            }
+        }
+        let mut jobs: Vec<(Node, Vec<Option<u64>>)> = Vec::new();
+        for k in UNARY_KINDS {
+            for v in 0..10 {
+                for l in [0u64, 1, 3, 6] {
+                    jobs.push((unary(k, Node::Leaf(0), v), vec![Some(l)]));
+                }
+            }
+        }
+        for k in BINARY_KINDS {
+            for v in 0..3 {
+                for (la, lb) in [(0u64, 3u64), (3, 0), (2, 5), (5, 2), (4, 4)] {
+                    jobs.push((binary(k, Node::Leaf(0), Node::Leaf(1), v), vec![Some(la), Some(lb)]));
+                }
+            }
+        }
+        jobs.retain(|(n, _)| n.max_bound(LEAF_AMP) < 0.95);
+        for (i, (node, lens)) in jobs.iter().enumerate() {
+            let thin = cli.t(6usize, 3usize);
+            if (i / thin) as u64 % cli.nshards == cli.shard && i % thin == 0 {
+                run_any(&mut rep, FNAMES[i % FNAMES.len()], node, lens, [1u64, 5, 9][i % 3]);
+                rep.hit("trees_run_as_a_32_bit_build");
+                flush(&mut rep);
+            }
+        }
+        for i in 0..cli.t(6u64, 20u64) {
+            let mut rng = Rng::derive(cli.seed, &[3205, cli.shard, i]);
+            let (node, nl) = random_bounded_tree(&mut rng, 3, 4);
+            let lens: Vec<Option<u64>> = (0..nl).map(|_| if rng.chance(1, 5) { None } else { Some(rng.below(10)) }).collect();
+            run_any(&mut rep, FNAMES[rng.usize_below(FNAMES.len())], &node, &lens, 1 + rng.below(8));
+            rep.hit("trees_run_as_a_32_bit_build");
+            flush(&mut rep);
+        }
+        flush(&mut rep);
+        finish(&cli, rep, t0);
+    }
     for o in ["iterator_conformance_scripts", "two_source_second_shorter", "two_source_first_shorter", "delay_longer_than_source", "delay_equal_to_source_length", "zero_length_source", "trailing_partial_frame"] {
         rep.oblige(o, 1);
     }
